@@ -713,7 +713,12 @@ class VectorMixedProduct(Expr):  # type: ignore[misc]
             return SymDerivative(self, symbol, evaluate=False)
 
         a, b, c = self.args
-        return VectorDot(a, VectorCross(b, c)).diff(symbol)
+
+        derived_a = VectorMixedProduct(a.diff(symbol), b, c)
+        derived_b = VectorMixedProduct(a, b.diff(symbol), c)
+        derived_c = VectorMixedProduct(a, b, c.diff(symbol))
+
+        return derived_a + derived_b + derived_c
 
 
 class AppliedVectorFunction(sym_fn.Application, VectorExpr):  # type: ignore[misc]
